@@ -10,7 +10,7 @@
    table.  Merkle roots of transactions / results, transaction hashes, the HashedParams and
    ResponseDeliverTx encodings ARE recomputed here with the C10 model and SHA-256. *)
 From Coq Require Import List ZArith NArith Bool String.
-From TM Require Import Common.Hex Common.Sha256 Generated.Consts C10.Model C20.Model.
+From TM Require Import Common.Hex Common.Sha256 Generated.Consts C10.Model C20.Model C20.LatestModel.
 Import ListNotations.
 Open Scope Z_scope.
 
@@ -139,6 +139,14 @@ Inductive case :=
 (* ConsensusParams: ValidateConsensusParams ok, height, block.max_bytes, block.max_gas *)
 | CParams (o : orct) (valid : bool) (height max_bytes max_gas : Z)
           (relayed_i : bool) (calls_i : list callt) (honest : bool)
+(* ConsensusParams as a conversation: the height the caller asks for (None: the latest); what the
+   server answers to each request it can get (request -> valid, label, block.max_bytes,
+   block.max_gas; None: an error) - for an honest server the answers of rpc/core, "no height"
+   being answered for store height + 1; impl: the requests the server received, relayed?, the
+   answer handed to the caller (label, max_bytes, max_gas), LC calls *)
+| CParamsReq (o : orct) (req : option Z) (answers : list (option Z * option (bool * Z * Z * Z)))
+             (asked_i : list (option Z)) (relayed_i : bool) (out_i : Z * Z * Z)
+             (calls_i : list callt) (honest : bool)
 (* BlockResults: requested height, latest height by Status, response height and tx results *)
 | CResults (o : orct) (req : option Z) (latest : Z) (r_height : Z) (rs : list dtxt)
            (relayed_i : bool) (calls_i : list callt) (honest : bool)
@@ -410,6 +418,34 @@ Definition check (c : case) : verdict :=
       viol (imp honest relayed_i) 9;
       mism (Bool.eqb relayed_m relayed_i) 33;
       mism (calls_eqb calls_m calls_i) 34 ]
+  | CParamsReq o req answers asked_i relayed_i out_i calls_i honest =>
+    let orc := mk_oracle o in
+    let optz_eqb (a b : option Z) := match a, b with Some x, Some y => x =? y | None, None => true | _, _ => false end in
+    let srv : params_server := fun q =>
+      match find (fun e : option Z * option (bool * Z * Z * Z) => optz_eqb (fst e) q) answers with
+      | Some (_, Some (v, ht, mb, mg)) => Some {| p_valid := v; p_height := ht; p_max_bytes := mb; p_max_gas := mg |}
+      | _ => None
+      end in
+    let '(calls_m, asked_m, out_m) := relay_params_req Hs orc srv req in
+    let '(ht_i, mb_i, mg_i) := out_i in
+    first_of [
+      viol (no_panic calls_i) 17;
+      (* relayed => the parameters hash to the ConsensusHash of the verified header of the height they
+         are labelled with *)
+      viol (imp relayed_i
+              match truth o ht_i with
+              | None => false
+              | Some l => bytes_eqb (Hs (hashed_params_enc mb_i mg_i)) (h_consensus_hash (lb_header l))
+              end) 5;
+      (* an honest full node answered (the way rpc/core answers) and the light client has the block
+         to check it against => the parameters are returned; without a height that is clause 18 *)
+      viol (imp honest relayed_i) (match req with None => 18 | Some _ => 9 end);
+      mism (match out_m with
+            | None => negb relayed_i
+            | Some r => relayed_i && (p_height r =? ht_i) && (p_max_bytes r =? mb_i) && (p_max_gas r =? mg_i)
+            end) 44;
+      mism (list_eqb optz_eqb (match asked_m with Some q => [q] | None => [] end) asked_i) 45;
+      mism (calls_eqb calls_m calls_i) 46 ]
   | CResults o req latest r_height rs relayed_i calls_i honest =>
     let orc := mk_oracle o in
     let ds := map mk_dtx rs in
